@@ -373,6 +373,8 @@ def run(ctx):
                         'foreign entry was served)', 'Vakt.C11.cached_transparent / within_capacity_hit',
                         line=line, size=i)
             f.signature = 'model:' + ('hitmiss' if (i < len(outs) and i < len(mo) and outs[i][:1] == mo[i][:1]) else 'answer')
+            # a hit where the LRU model predicts a miss, with the right answer, is a different (not a wrong) cache
+            f.weak = f.signature == 'model:hitmiss' and i < len(outs) and outs[i].endswith('hit') and mo[i].endswith('miss')
             out.failures.append(f)
     out.rule = ('histories of 4-%d operations over Memory / SQLite / fake-Redis stores: asks drawn from a pool (the target '
                 'inquiry, a content-equal distinct object, key-order permutations, tuple-for-list and 1/1.0/True twins, '
